@@ -21,6 +21,7 @@ import props.c01 as c01
 RDLogger.DisableLog("rdApp.*")
 
 ID = "C02"
+REPEAT_PROBE = True   # engine: repeat 1 call in 5 after editing its first result in place (purity / no shared state)
 PROPS = "Props/C02.v"
 USES_GEN = ["lexer"]
 MODEL_FILES = ["Model/Parse.v", "Spec/ParseSpec.v", "Spec/SmilesCheck.v"]
